@@ -266,71 +266,77 @@ def verify_assign():
 
 
 def verify_name_new():
-    """MemoryMap.Name.__new__: a str is wrapped; otherwise a non-empty tuple whose parts are non-empty strings or non-negative
-    ints is accepted, everything else raises TypeError.  The loop over the parts carries the invariant 'all earlier parts valid'."""
+    """MemoryMap.Name.__new__: a str is wrapped into a 1-tuple; a non-empty tuple whose parts are non-empty strings or
+    non-negative ints is accepted; everything else raises TypeError.  The loop over the parts is executed for ONE ARBITRARY
+    part (it carries no state): `continue` = this part is fine, `raise` = the name is refused because of this part."""
+    from vf.pyvc.engine import T_STR, T_INT, T_TUPLE
     fv = FnVerifier("MemoryMap.Name.__new__", [])
     fn = find_def(FILE, "MemoryMap.Name.__new__")
-    from vf.pyvc.engine import T_STR, T_INT, T_TUPLE
     for shape in ("str", "tuple", "other"):
         ex = Exec(FILE, "MemoryMap.Name", axioms=[])
         q = Path()
         name = Dyn("name"); q.assume(name.wf())
         q.assume({"str": name.tag == T_STR, "tuple": name.tag == T_TUPLE, "other": z3.And(name.tag != T_STR, name.tag != T_TUPLE)}[shape])
         part = Dyn("part"); q.assume(part.wf())
-        n_parts = z3.Int("n_parts")
-        state = {"iterated": False}
+        n_parts = z3.Int("n_parts"); q.assume(n_parts >= 0)
 
         def loop(ex_, st_node, path):
-            """for part in name: one arbitrary part; `continue` = next part, raise = reject"""
             out = []
-            body = path.fork()
-            body.env = dict(body.env); body.env["part"] = part
-            for kind, val, q2 in ex_.block(st_node.body, body):
-                if kind == "continue":
-                    q2.ghost["part_valid"] = True
-                elif kind == "raise":
-                    q2.ghost["rejected_part"] = True
-                    out.append((kind, val, q2))
-                elif kind == "fall":
-                    ex_.unsupported(st_node, "loop body fell through without continue/raise")
-            path.ghost["all_parts_valid"] = True
-            out.append(("fall", None, path))
+            seq = ex_.eval(st_node.iter, path)[0][0]
+            elems = list(seq) if isinstance(seq, tuple) else [part]
+            for el in elems:
+                body = path.fork()
+                body.env = dict(body.env); body.env[st_node.target.id] = el
+                for kind, val, q2 in ex_.block(st_node.body, body):
+                    if kind == "raise":
+                        q2.ghost["rejected_part"] = el
+                        out.append((kind, val, q2))
+                    elif kind == "continue":
+                        # justification of the exit assumption below: a part is let through only if it is valid
+                        ex_.oblige("part-let-through-is-valid", q2, part_ok(el), st_node)
+                    else:
+                        ex_.unsupported(st_node, f"loop body ended with {kind}")
+            # the loop finishes normally only if no part raised: every part took a `continue`
+            done = path
+            for el in elems:
+                done.assume(part_ok(el))
+            out.append(("fall", None, done))
             return out
+
+        def part_ok(el):
+            return z3.Or(z3.And(el.tag == T_STR, el.nonempty), z3.And(el.tag == T_INT, el.ival >= 0))
         ex.loop_invariants[0] = loop
         ex.contracts["tuple.__new__"] = lambda ex_, recv, a, k, q_, node: [(Opaque("Name instance"), q_)]
-        ex.isinstance_hook = lambda v, ty, node: None
-        # after `name = (name,)` the engine holds a literal 1-tuple: len() and iteration are then concrete; the symbolic tuple
-        # case keeps `name` a Dyn whose emptiness is name.nonempty
         orig_len = ex.b_len
 
-        def b_len(args, kwargs, q_, e):
+        def b_len(args, kwargs, q_, e, orig_len=orig_len, name=name):
             if isinstance(args[0], Dyn):
-                return [(z3.If(args[0].nonempty, z3.IntVal(1), z3.IntVal(0)) if False else z3.If(args[0].nonempty, n_parts, z3.IntVal(0)), q_)]
+                return [(z3.If(args[0].nonempty, n_parts + 1, z3.IntVal(0)), q_)]
             return orig_len(args, kwargs, q_, e)
         ex.b_len = b_len
-        q.assume(n_parts >= 1)
         q.env.update({"cls": Opaque("cls"), "name": name})
-        try:
-            outs = ex.run(fn, q)
-        except Unsupported as e:
-            # `for part in (name,)` over a literal tuple: run the loop body for its single element
-            raise
+        outs = ex.run(fn, q)
         fv.paths += len(outs)
-        part_ok = z3.Or(z3.And(part.tag == T_STR, part.nonempty), z3.And(part.tag == T_INT, part.ival >= 0))
         for k, o in enumerate(outs):
             p = o.path
             lab = f"{shape}:path{k}"
             if o.kind == "raise":
                 fv.add("raises-only-TypeError", lab, p.pc, z3.BoolVal(o.exc == "TypeError"))
-                if p.ghost.get("rejected_part"):
-                    fv.add("a-rejected-part-is-invalid", lab, p.pc, z3.Not(part_ok) if shape == "tuple" else z3.Not(z3.And(name.tag == T_STR, name.nonempty)))
+                rp = p.ghost.get("rejected_part")
+                if rp is not None:
+                    fv.add("a-part-that-causes-refusal-is-invalid", lab, p.pc, z3.Not(part_ok(rp)))
                 else:
-                    fv.add("rejected-before-the-loop-only-if-not-a-nonempty-tuple", lab, p.pc,
-                           z3.Or(z3.BoolVal(shape == "other"), z3.Not(name.nonempty)))
+                    fv.add("refused-before-the-loop-only-if-not-a-nonempty-tuple-or-str", lab, p.pc,
+                           z3.Or(z3.BoolVal(shape == "other"), z3.And(z3.BoolVal(shape == "tuple"), z3.Not(name.nonempty))))
             else:
-                fv.add("accepted-name-is-str-or-nonempty-tuple", lab, p.pc,
-                       z3.BoolVal(shape != "other") if shape != "tuple" else name.nonempty)
+                fv.add("no-foreign-object-accepted", lab, p.pc, z3.BoolVal(shape != "other"))
+                if shape == "str":
+                    fv.add("accepted-string-is-nonempty", lab, p.pc, name.nonempty)
+                if shape == "tuple":
+                    fv.add("accepted-tuple-is-nonempty-with-valid-parts", lab, p.pc, z3.And(name.nonempty, part_ok(part)))
+        # the loop model itself: the derived exit assumption must be what the body enforces (checked by a cover + the two raises)
         fv.add_engine_obligations(ex)
+    fv.add("cover:paths", "vacuity", [], z3.BoolVal(fv.paths >= 6))
     return fv
 
 
@@ -369,4 +375,4 @@ def verify_extend():
     return fv
 
 
-ALL = [verify_is_available, verify_assign, verify_extend]
+ALL = [verify_is_available, verify_assign, verify_extend, verify_name_new]
